@@ -40,7 +40,9 @@ Finish by reporting: the diff, the demo output with and without the change, and 
 
 AUDIT_TASK = """Your task: AUDIT the unchanged library against this property. Do NOT modify anything under {wt}/pane. Read the code the property is about, think about where it could be violated, and try concrete inputs until you either find a violation or have covered the risky places. Look especially at: rarely used public API and options, interactions of two features, unusual but legitimate values (empty containers, negative zero, NaN, huge ints, non-ASCII text, bytes vs bytearray, subclasses of builtin types, Mapping/Sequence implementations that are not dict/list, defaultdict, OrderedDict), state kept between calls (caches, class-level tables), behaviour that differs between interpreter runs (PYTHONHASHSEED), and what the documentation in {wt}/docs promises.
 
-Deliberately OUT of scope, already known (do not report these): (a) a dataclass with out_format='tuple' emits keyword-only fields that tuple input refuses; (b) pane.types.Range instances do not survive convert(); (c) an internally tagged union whose tag field is renamed for output cannot re-read its output; (d) a ValueOrList member of an untagged union next to a member accepting any object; (e) bool given where a number is expected is accepted (documented Python semantics); (f) values that merely == a Literal / enum value / tag of another type (1.0 vs 1, True vs 1) are accepted; (g) the python field name is accepted as a mapping key even when other input names are configured; (h) numpy.typing.NDArray[...] is unsupported on this numpy version; (i) which entry wins when two mapping keys convert to the same typed key.
+Deliberately OUT of scope, already known (do not report these): (a) a dataclass with out_format='tuple' emits keyword-only fields that tuple input refuses; (b) pane.types.Range instances do not survive convert(); (c) an internally tagged union whose tag field is renamed for output cannot re-read its output; (d) a ValueOrList member of an untagged union next to a member accepting any object; (e) bool given where a number is expected is accepted (documented Python semantics); (f) values that merely == a Literal / enum value / tag of another type (1.0 vs 1, True vs 1) are accepted; (g) the python field name is accepted as a mapping key even when other input names are configured; (h) numpy.typing.NDArray[...] is unsupported on this numpy version; (i) which entry wins when two mapping keys convert to the same typed key; (j) a mapping entry whose key AND value are both bad reports only one of the two in the error tree; (k) a dataclass with eq=False, order=True has comparison operators that are not a trichotomy; (l) convert() of a compiled regular expression drops its flags; (m) a field declared init=False appears in into_data output and the output is then refused as input; (n) instances of user subclasses of int / str / float / date given as input data (whether they are accepted is unspecified).
+
+This is a SECOND auditing pass: an earlier pass already examined the obvious places (scalar conversions, optional/union basics, simple dataclasses, simple error messages) and about seventy defects were repaired since. Spend your effort on deeper combinations: three features at once, nested generics, inheritance chains of dataclasses with differing class options, tagged unions inside containers inside dataclasses, custom converters / handlers combined with everything else, conditions on container types, the less common typing forms (Annotated nested twice, NewType, TypeVar with constraints, Final, ClassVar, Optional of Literal, Tuple[()] and Tuple[T, ...], collections.abc forms, PEP 604 unions, typing.Required / NotRequired where supported), YAML-specific input (anchors, merge keys, multi-document streams, tags), and long sequences of API calls on the same class objects.
 
 For every violation you can demonstrate:
 1. Write {wt}/repro_<n>.py: a small standalone program that prints what it observes and exits NON-ZERO while the violation is present (and would exit 0 once it is repaired).
